@@ -1,7 +1,6 @@
 (* Proofs for C18: the text visit_Constant emits lexes, as C++, to the constant it came from. *)
 From Coq Require Import ZArith List Bool Lia ZifyBool.
 From FV Require Import Base.Prelude Model.CppLex Model.Consts.
-Set Default Timeout 20.
 
 (* ---------- strings ---------- *)
 Lemma app_assoc_s : forall a b c : string, (a +++ b) +++ c = a +++ (b +++ c).
@@ -47,6 +46,10 @@ Qed.
 
 Lemma render_str : forall s : string, render (CStr s) = OK (cpp_string_literal s, TString).
 Proof. reflexivity. Qed.
+
+Lemma render_str_ok : forall s : string,
+  render (CStr s) = OK (cpp_string_literal s, TString) /\ lex (cpp_string_literal s) = Some (LStr s).
+Proof. intros s. split; [exact (render_str s) | exact (lex_string_literal s)]. Qed.
 
 (* the unfixed rendering: a quote, a backslash or a new-line in the string breaks the literal or changes it *)
 Lemma render_v0_str_refuted :
@@ -228,6 +231,10 @@ Proof.
   intros z Hz. split; [|now apply lex_dec_Z].
   unfold render. destruct (9223372036854775808 <=? Z.abs z)%Z eqn:E; [lia | reflexivity].
 Qed.
+
+Lemma render_int32_ok : forall z : Z, int32_range z ->
+  render (CInt z) = OK (dec_Z z, TInt) /\ lex (dec_Z z) = Some (LInt z).
+Proof. intros z H. apply render_int_ok. unfold int32_range in H. lia. Qed.
 
 Lemma render_int_huge : forall z : Z, (Z.abs z > 9223372036854775807)%Z -> render (CInt z) = Error ErrValue.
 Proof.
@@ -556,3 +563,136 @@ Qed.
 Lemma render_v0_float_refuted :
   exists t : string, py_float_repr t = true /\ render_v0 (CFloat t) = OK (t, TDouble) /\ lex t = None.
 Proof. exists "inf". repeat split. Qed.
+
+(* ---------- names: each name sits in one string literal, at a fixed place, with its own value ---------- *)
+Lemma literal_at_string : forall (pre s rest : string),
+  starts_with pre (pre +++ cpp_string_literal s +++ rest) = Some (cpp_string_literal s +++ rest) ->
+  literal_at pre (pre +++ cpp_string_literal s +++ rest) = Some (LStr s, rest).
+Proof. intros pre s rest H. unfold literal_at. rewrite H. apply lex_prefix_string_literal. Qed.
+
+Lemma starts_with_app : forall pre r : string, starts_with pre (pre +++ r) = Some r.
+Proof.
+  induction pre as [|c pre IH]; intros r; simpl; [reflexivity|].
+  rewrite Ascii.eqb_refl. apply IH.
+Qed.
+
+Lemma literal_at_app : forall (pre s rest : string),
+  literal_at pre (pre +++ cpp_string_literal s +++ rest) = Some (LStr s, rest).
+Proof. intros. apply literal_at_string. apply starts_with_app. Qed.
+
+Lemma branch_line_literal : forall col var : string,
+  literal_at "myTree->Branch(" (branch_line (col, var)) = Some (LStr col, ", &" +++ var +++ ");").
+Proof. intros. unfold branch_line. cbn [fst snd]. apply literal_at_app. Qed.
+
+Lemma book_tree_atlas : forall (tree : string) (leaves : list (string * string)),
+  exists l1 l2, book_lines Atlas tree leaves = l1 :: l2 :: map branch_line leaves /\
+    literal_at "ANA_CHECK (book (TTree (" l1 = Some (LStr tree, ", ""My analysis ntuple"")));") /\
+    literal_at "auto myTree = tree (" l2 = Some (LStr tree, ");").
+Proof.
+  intros. eexists; eexists. split; [reflexivity|]. split; apply literal_at_app.
+Qed.
+
+Lemma book_tree_cms : forall (b : backend) (tree : string) (leaves : list (string * string)),
+  b <> Atlas ->
+  exists l2, book_lines b tree leaves = "edm::Service<TFileService> fs;" :: l2 :: map branch_line leaves /\
+    literal_at "myTree = fs->make<TTree>(" l2 = Some (LStr tree, ", ""My analysis ntuple"");").
+Proof.
+  intros b tree leaves Hb. destruct b; [congruence| |]; (eexists; split; [reflexivity|]; apply literal_at_app).
+Qed.
+
+Lemma fill_line_atlas : forall tree : string,
+  literal_at "tree(" (fill_line Atlas tree) = Some (LStr tree, ")->Fill();").
+Proof. intros. apply literal_at_app. Qed.
+
+(* substitution of the rendered bank name into the retrieval line *)
+Lemma bank_subst_atlas : forall d : string,
+  subst_line [("collection_name", d)] (bank_template Atlas "") =
+  "ANA_CHECK (evtStore()->retrieve(result, " +++ d +++ "));".
+Proof. intros d. vm_compute. reflexivity. Qed.
+
+Lemma bank_subst_aod : forall d : string,
+  subst_line [("collection_name", d)] (bank_template CmsAod "") = "iEvent.getByLabel(" +++ d +++ ", result);".
+Proof. intros d. vm_compute. reflexivity. Qed.
+
+Lemma bank_subst_miniaod : forall ty d : string, In ty miniaod_types ->
+  subst_line [("collection_name", d)] (bank_template CmsMiniaod ty) =
+  ("consumes<" +++ ty +++ ">(edm::InputTag(") +++ d +++ "))".
+Proof.
+  intros ty d H. unfold miniaod_types in H.
+  repeat (destruct H as [<- | H]; [vm_compute; reflexivity|]). destruct H.
+Qed.
+
+Definition bank_prefix (b : backend) (ty : string) : string :=
+  match b with
+  | Atlas => "ANA_CHECK (evtStore()->retrieve(result, "
+  | CmsAod => "iEvent.getByLabel("
+  | CmsMiniaod => "consumes<" +++ ty +++ ">(edm::InputTag("
+  end.
+Definition bank_suffix (b : backend) : string :=
+  match b with Atlas => "));" | CmsAod => ", result);" | CmsMiniaod => "))" end.
+
+Lemma bank_line_literal : forall (b : backend) (ty name : string),
+  (b = CmsMiniaod -> In ty miniaod_types) ->
+  exists line, bank_line b ty name = OK line /\
+    literal_at (bank_prefix b ty) line = Some (LStr name, bank_suffix b).
+Proof.
+  intros b ty name Hty. unfold bank_line. rewrite render_str.
+  eexists. split; [reflexivity|].
+  destruct b.
+  - change (bank_template Atlas ty) with (bank_template Atlas ""). rewrite bank_subst_atlas. apply literal_at_app.
+  - change (bank_template CmsAod ty) with (bank_template CmsAod ""). rewrite bank_subst_aod. apply literal_at_app.
+  - rewrite (bank_subst_miniaod ty _ (Hty eq_refl)). apply literal_at_app.
+Qed.
+
+(* the second substitution runs over the text that the first one produced: an object name made of
+   word characters after the i_obj stem (what unique_name returns) is passed over untouched *)
+Lemma replace_word_skip : forall (w d x r : string),
+  all_s is_word x = true ->
+  replace_word_aux w d 0 true (x +++ r) = x +++ replace_word_aux w d 0 true r.
+Proof.
+  intros w d. induction x as [|c x IH]; intros r H.
+  - reflexivity.
+  - simpl in H. apply andb_true_iff in H. destruct H as [Hc Hx].
+    cbn [String.append replace_word_aux]. rewrite Hc, (IH r Hx). reflexivity.
+Qed.
+
+Lemma replace_word_no_occurrence : forall (w d x : string) (b : bool),
+  all_s is_word x = true ->
+  replace_word_aux w d 0 true x = x.
+Proof.
+  intros w d x b H. rewrite <- (app_nil_r_s x) at 1. rewrite replace_word_skip by exact H.
+  now rewrite app_nil_r_s.
+Qed.
+
+Lemma attr_subst_obj : forall d : string,
+  replace_word "obj_j" d "auto result = obj_j->getAttribute<float>(moment_name);" =
+  "auto result = " +++ d +++ "->getAttribute<float>(moment_name);".
+Proof. intros d. vm_compute. reflexivity. Qed.
+
+Lemma attr_subst_pre : forall d rest : string,
+  replace_word_aux "moment_name" d 0 false ("auto result = i_obj" +++ rest) =
+  "auto result = i_obj" +++ replace_word_aux "moment_name" d 0 true rest.
+Proof. intros d rest. vm_compute. reflexivity. Qed.
+
+Lemma attr_subst_post : forall d : string,
+  replace_word_aux "moment_name" d 0 true "->getAttribute<float>(moment_name);" =
+  "->getAttribute<float>(" +++ d +++ ");".
+Proof. intros d. vm_compute. reflexivity. Qed.
+
+Lemma attribute_line_literal : forall (k attr : string), all_s is_word k = true ->
+  exists line, attribute_line ("i_obj" +++ k) attr = OK line /\
+    literal_at ("auto result = i_obj" +++ k +++ "->getAttribute<float>(") line = Some (LStr attr, ");").
+Proof.
+  intros k attr Hk. unfold attribute_line. rewrite render_str.
+  eexists. split; [reflexivity|].
+  unfold subst_line. cbn [fold_left fst snd].
+  rewrite attr_subst_obj. unfold replace_word.
+  rewrite !app_assoc_s. rewrite <- (app_assoc_s "auto result = " "i_obj").
+  change ("auto result = " +++ "i_obj") with "auto result = i_obj".
+  rewrite attr_subst_pre, replace_word_skip by exact Hk.
+  rewrite attr_subst_post.
+  rewrite <- !app_assoc_s.
+  rewrite (app_assoc_s ("auto result = i_obj" +++ k +++ "->getAttribute<float>(")).
+  rewrite (app_assoc_s "auto result = i_obj" k) at 1.
+  apply literal_at_app.
+Qed.
